@@ -187,6 +187,8 @@ def gen_sessions(ctx, salt, nsess, boards_choices, strategies_per, arrivals_fn=N
         for a in arr:
             a['passout_boards'] = po
         boards = gen_boards(r, nb)
+        for j, b in enumerate(boards):        # every vulnerability occurs among the first boards of any three consecutive sessions
+            b['vul'] = (i + j) % 4
         if i % 8 == 1 and not arrivals_fn:
             # the two ends of the trick count: each hand is one complete suit; the dealer opens 1NT (the defence cashes thirteen tricks,
             # declarer's side wins none) on the first such board and seven of its own suit (thirteen tricks) on the second
